@@ -31,8 +31,14 @@ TWO = {"Dc": ("zmin", "zmax"), "Dm": ("zmin", "zmax"), "Da": ("zmin", "zmax"), "
 ONE = {"ez_inverse": "z", "dV": "z"}
 
 
+# rules that keep their verdict however the code is laid out (decided by term equality, effect analysis or dominance over
+# resolved calls); every other rule of this check is a template rule (vcheck.core.Check.obt)
+SEMANTIC = ('R11.1', 'R11.3', 'R11.4')
+
+
 def run(chk):
     repo = PyRepo()
+    chk.set_templates(repo, semantic=SEMANTIC)
     chk.explanation = MANIFEST["text"]
     chk.trusted = ["clang 14 AST", "sympy normaliser", "PyMethodDef name -> Python attribute"]
     chk.floor = 150
